@@ -211,7 +211,7 @@ class Contract:
     def __init__(self, qualname, params=None, cases=None, requires=None, ensures=None, raises=None,
                  result=None, loops=None, canaries=None, inline=False, hints=None, notes='',
                  modular_raises=None, properties=(), native_call=None, frame=None, local_models=None,
-                 native_oracle=None, expr_contracts=None):
+                 native_oracle=None, expr_contracts=None, exc_ensures=None):
         self.qualname = qualname
         self.params = params or {}
         #: list of (label, {param: Spec}) overriding `params`; each case is explored separately
@@ -234,6 +234,8 @@ class Contract:
         self.native_oracle = native_oracle
         #: local name -> dict(source=<exact expression text>, value=f(interp, frame) -> model value, doc=<assumed meaning>)
         self.expr_contracts = expr_contracts or {}
+        #: exception name -> f(**args) -> clauses that must hold on that exceptional exit (frame / ghost conditions)
+        self.exc_ensures = exc_ensures or {}
         #: local name -> factory of a typed model for `name = []` (an empty list literal carries no element type)
         self.local_models = local_models or {}
 
